@@ -233,6 +233,7 @@ func (e *c11Exec) DispatchError(ctx context.Context, list gqlerror.List) *graphq
 }
 
 type c11Conf struct {
+	onClose func()
 	mu     sync.Mutex
 	closes []int
 	inits  int
@@ -250,7 +251,11 @@ func c11New(me *c11ME, ex *c11Exec, cf *c11Conf, initMode int) *wsConnection {
 		CloseFunc: func(ctx context.Context, closeCode int) {
 			cf.mu.Lock()
 			cf.closes = append(cf.closes, closeCode)
+			first := len(cf.closes) == 1
 			cf.mu.Unlock()
+			if first && cf.onClose != nil {
+				cf.onClose()
+			}
 		},
 		ErrorFunc: func(ctx context.Context, err error) {
 			cf.mu.Lock()
@@ -454,4 +459,35 @@ func Harness_C11_run() {
 	c.mu.Unlock()
 	zzsym.Assert(!me.overlap, "frames are never written concurrently")
 	zzsym.Reach("c11.run")
+}
+
+// Harness_C11_initTimeout: with an init timeout configured, the client either
+// sends connection_init or stays silent until the socket is closed; the timer
+// may fire at any scheduling point. Whatever happens first, the handshake is
+// decided once, a refused connection is closed (close callback once), and the
+// helper goroutine reading the first frame ends - nothing is left running.
+func Harness_C11_initTimeout() {
+	c11Subprotocol = []string{graphqlwsSubprotocol, graphqltransportwsSubprotocol}[zzsym.Choice("subprotocol", 2)]
+	me := &c11ME{blockAtEnd: make(chan struct{})}
+	silent := zzsym.Choice("client", 2) == 0
+	if !silent {
+		me.script = []c11In{{m: message{t: initMessageType}}}
+	}
+	cf := &c11Conf{}
+	cf.onClose = func() { close(me.blockAtEnd) } // closing the socket makes the pending read fail
+	c := c11New(me, &c11Exec{panicAt: -1}, cf, 0)
+	c.InitTimeout = time.Millisecond
+	ok := c.init()
+	if ok {
+		// an accepted connection is then closed by the peer going away
+		c.close(websocket.CloseNormalClosure, "bye")
+	}
+	left := zzsym.Quiesce()
+	zzsym.Assert(left == 0, "the goroutine reading the first frame ends once the connection is closed")
+	zzsym.Assert(cf.nCloses() == 1, "the close callback fires exactly once")
+	if silent {
+		zzsym.Assert(!ok, "a silent client is refused when the init timeout fires")
+		zzsym.Reach("c11.timeout.fired")
+	}
+	// (whether a prompt connection_init beats the timer is a scheduling matter: both outcomes are explored)
 }
